@@ -290,3 +290,58 @@ Section Untied.
         * apply Hsum. lia.
   Qed.
 End Untied.
+
+(* ---------- the untied executable twin (urows / untied_table) ---------- *)
+Local Open Scope Z_scope.
+Lemma urow_step_length m prev : forall left, length (urow_step m prev left) = length prev.
+Proof. induction prev as [|q prev IH]; intros left; cbn [urow_step length]; [reflexivity|]. now rewrite IH. Qed.
+Lemma urows_length nmax m : length (urows nmax m) = S nmax.
+Proof.
+  induction m as [|m IH]; cbn [urows]; [apply repeat_length|].
+  destruct (urows nmax m) as [|p0 rest]; [discriminate|]. cbn [length] in *. now rewrite urow_step_length.
+Qed.
+Lemma urow_step_spec m' prev : forall left k,
+  (forall u, coef left u = untied_c k (S m') u) ->
+  (forall j u, (j < length prev)%nat -> coef (nth j prev []) u = untied_c (S k + j) m' u) ->
+  forall j u, (j < length prev)%nat -> coef (nth j (urow_step (S m') prev left) []) u = untied_c (S k + j) (S m') u.
+Proof.
+  induction prev as [|q prev IH]; intros left k Hl Hp j u Hj; [cbn in Hj; lia|].
+  cbn [urow_step]. set (p := padd q (pshift (S m') left)).
+  assert (Hpq: forall u, coef p u = untied_c (S k) (S m') u).
+  { intros v. unfold p. rewrite coef_padd, coef_pshift, Hl. specialize (Hp 0%nat v ltac:(cbn; lia)).
+    cbn [nth] in Hp. rewrite Hp, Nat.add_0_r, uc_SS. lia. }
+  destruct j as [|j]; cbn [nth].
+  - rewrite Nat.add_0_r. apply Hpq.
+  - replace (S k + S j)%nat with (S (S k) + j)%nat by lia. apply IH; [exact Hpq| |cbn in Hj; lia].
+    intros j' v Hj'. specialize (Hp (S j') v ltac:(cbn; lia)). cbn [nth] in Hp. rewrite Hp. f_equal. lia.
+Qed.
+Theorem urows_spec nmax m : forall n u, (n <= nmax)%nat -> coef (nth n (urows nmax m) []) u = untied_c n m u.
+Proof.
+  induction m as [|m IH]; intros n u Hn.
+  - cbn [urows]. rewrite (nth_indep _ [] [1]) by (rewrite repeat_length; lia). rewrite nth_repeat, uc_n0.
+    unfold coef. destruct (Z.ltb_spec u 0); [destruct (Z.eqb_spec u 0); lia|].
+    destruct (Z.eqb_spec u 0) as [->|]; [reflexivity|]. destruct (Z.to_nat u) eqn:E; [lia|]. cbn [nth]. apply nth_nil.
+  - cbn [urows]. pose proof (urows_length nmax m) as HL.
+    destruct (urows nmax m) as [|p0 rest] eqn:E; [discriminate|]. cbn [length] in HL.
+    destruct n as [|n]; cbn [nth].
+    + pose proof (IH 0%nat u ltac:(lia)) as H0. cbn [nth] in H0. rewrite H0. now rewrite !uc_0.
+    + replace (S n) with (1 + n)%nat by lia. apply (urow_step_spec m rest p0 0%nat).
+      * intros v. pose proof (IH 0%nat v ltac:(lia)) as H0. cbn [nth] in H0. rewrite H0. now rewrite !uc_0.
+      * intros j v Hj. specialize (IH (S j) v ltac:(lia)). cbn [nth] in IH. exact IH.
+      * lia.
+Qed.
+
+Theorem untied_table_counts_subsets {X} (cmp : X -> X -> comparison) N1 N2 z k :
+  grouped cmp (ones (N1 + N2)) z ->
+  coef (untied_table N1 N2) k = count_eq cmp z N1 (2 * k) /\
+  cum_at (cumsum 0 (untied_table N1 N2)) k = count_le cmp z N1 (2 * k).
+Proof.
+  intros HG. unfold untied_table. split.
+  - rewrite urows_spec by lia. now apply untied_c_counts_subsets.
+  - rewrite (count_le_cntS cmp (ones (N1 + N2)) z N1 _ HG). unfold cum_at.
+    destruct (Z.ltb_spec k 0); [symmetry; apply cntS_neg; lia|].
+    rewrite <- cumC_cntS by lia. rewrite nth_cumsum, Z.add_0_l. unfold cumC, zrange. rewrite zsum_map.
+    replace (Z.to_nat (k - 0 + 1)) with (S (Z.to_nat k)) by lia.
+    apply zsum_ext. intros v. rewrite <- (urows_spec N1 N2 N1) by lia. unfold coef.
+    destruct (Z.ltb_spec (0 + Z.of_nat v) 0); [lia|]. f_equal. lia.
+Qed.
